@@ -19,9 +19,17 @@ fn raw_cif(p: &PDB) -> Vec<u8> {
 }
 
 /// diagnostic triggers for PDB text (each produces a known diagnostic class)
-fn mutate_pdb(rng: &mut Rng, text: &str) -> (String, &'static str) {
+/// the triggers are taken in turn (every one of them equally often), and the MASTER record runs through all sixteen
+/// combinations of its four checksums being right or wrong
+#[derive(Default)]
+struct Cycle {
+    trigger: usize,
+    master: usize,
+}
+fn mutate_pdb(rng: &mut Rng, cyc: &mut Cycle, text: &str) -> (String, &'static str) {
     let mut lines: Vec<String> = text.lines().map(str::to_string).collect();
-    let k = rng.below(20);
+    let k = cyc.trigger % 20;
+    cyc.trigger += 1;
     let label = match k {
         19 => {
             // two files behind each other: atoms, a MASTER record with the right count, END, and the same atoms once more.
@@ -82,12 +90,15 @@ fn mutate_pdb(rng: &mut Rng, text: &str) -> (String, &'static str) {
             lines.insert(1, "REMARK 998 A".to_string());
             "long-remark+bad-number"
         }
-        9 => {
-            // MASTER record with each checksum independently right or wrong (several diagnostics of one family, two levels)
+        8 | 9 => {
+            // MASTER record with each checksum independently right or wrong (several diagnostics of one family, two levels):
+            // all sixteen combinations in turn
             let n_atoms = lines.iter().filter(|l| l.starts_with("ATOM") || l.starts_with("HETATM")).count();
             let n_remark = lines.iter().filter(|l| l.starts_with("REMARK")).count();
-            let wrong = |r: &mut Rng, v: usize| if r.chance(1, 2) { v } else { v + 1 + r.below(3) };
-            let (a, b2, c, d) = (wrong(rng, n_remark), if rng.chance(1, 2) { 0 } else { 1 + rng.below(4) }, wrong(rng, 0) , wrong(rng, n_atoms));
+            let bits = cyc.master % 16;
+            cyc.master += 1;
+            let wrong = |r: &mut Rng, on: bool, v: usize| if on { v + 1 + r.below(3) } else { v };
+            let (a, b2, c, d) = (wrong(rng, bits & 1 != 0, n_remark), wrong(rng, bits & 2 != 0, 0), wrong(rng, bits & 4 != 0, 0), wrong(rng, bits & 8 != 0, n_atoms));
             let at = lines.iter().position(|l| l.starts_with("END")).unwrap_or(lines.len());
             lines.insert(at, format!("MASTER    {a:5}{b2:5}    0    0    0    0    0{c:5}{d:5}    0    0    0"));
             "master-variants"
@@ -198,6 +209,7 @@ pub fn run(seed: u64, count: usize, out: &mut Out, tmp: &str) {
     }
     // 2. reader gate + cross-level comparison
     let mut rng = Rng::new(seed);
+    let mut cyc = Cycle::default();
     for i in 0..count {
         let sh = gen::Shape { max_models: if i % 4 == 0 { 3 } else { 2 }, elements_known: true, ..Default::default() };
         let mut p = gen::structure(&mut rng, &sh);
@@ -211,7 +223,7 @@ pub fn run(seed: u64, count: usize, out: &mut Out, tmp: &str) {
             mutate_cif(&mut rng, &t)
         } else {
             let t = String::from_utf8(raw_pdb(&p, StrictnessLevel::Loose)).unwrap_or_default();
-            mutate_pdb(&mut rng, &t)
+            mutate_pdb(&mut rng, &mut cyc, &t)
         };
         out.count(&format!("{}:{label}", if is_cif { "cif" } else { "pdb" }));
         let mut per_level = Vec::new();
